@@ -27,8 +27,9 @@ def discriminant(function):
         if not isinstance(data, _np.ndarray) or data.dtype.kind not in ('b', 'i', 'u', 'f', 'c'):
             raise TypeError(f'data must be a numeric array, not {data}.')
 
-        if axis == -1:
-            axis = len(data.shape) - 1
+        if not -data.ndim <= axis < data.ndim:
+            raise ValueError(f'axis {axis} is out of bounds for data with {data.ndim} dimensions.')
+        axis = axis % data.ndim
         results = function(data, axis=axis)
         if not isinstance(results, _np.ndarray) or results.dtype.kind not in ('b', 'i', 'u', 'f', 'c'):
             raise ValueError(f'Discriminant {function} do not preserve data type.')
